@@ -13,16 +13,17 @@ const GX_SECP: [u8; 32] = [
     0x79, 0xBE, 0x66, 0x7E, 0xF9, 0xDC, 0xBB, 0xAC, 0x55, 0xA0, 0x62, 0x95, 0xCE, 0x87, 0x0B, 0x07, 0x02, 0x9B, 0xFC, 0xDB, 0x2D, 0xCE, 0x28, 0xD9, 0x59, 0xF2, 0x81, 0x5B, 0x16, 0xF8, 0x17, 0x98,
 ];
 
-/// every leading byte except the two compressed tags (symbolic) in front of a valid x-coordinate
-/// (concrete, so that curve arithmetic, where it is entered at all, constant-folds): rejected
-fn tag<C: Ciphersuite, S: Src>(s: &mut S, gx: &[u8; 32], compact: bool)
+/// every leading byte except the two compressed tags (symbolic: 254 values) in front of a valid
+/// x-coordinate: rejected. The SEC1 "compact" tag 0x05 is the one other tag with a 33-byte body;
+/// a decoder that hands it to point decompression is outside CBMC's reach (34 GB), so the runner
+/// first replays the designated probe input 0x05 natively (tools/e2.py PROBES) and only then
+/// asks the solver about all tags.
+fn tag<C: Ciphersuite, S: Src>(s: &mut S, gx: &[u8; 32])
 where
     <C::Group as Group>::Serialization: From<[u8; 33]>,
 {
-    // the SEC1 "compact" tag 0x05 is the only other tag with a 33-byte body: it enters point
-    // decompression, which is only tractable with a concrete tag; all remaining tags are symbolic
-    let t: u8 = if compact { 5 } else { s.u8() };
-    s.assume(t != 2 && t != 3 && (compact || t != 5));
+    let t: u8 = s.u8();
+    s.assume(t != 2 && t != 3);
     let mut b = [0u8; 33];
     b[0] = t;
     let mut i = 0;
@@ -34,22 +35,13 @@ where
     assert!(r.is_err(), "only the compressed SEC1 tags 0x02/0x03 denote a group element (any other leading byte cannot re-encode to itself)");
 }
 pub fn k4_p256_tag<S: Src>(s: &mut S) {
-    tag::<frost_p256::P256Sha256, S>(s, &GX_P256, false)
+    tag::<frost_p256::P256Sha256, S>(s, &GX_P256)
 }
 pub fn k4_secp256k1_tag<S: Src>(s: &mut S) {
-    tag::<frost_secp256k1::Secp256K1Sha256, S>(s, &GX_SECP, false)
+    tag::<frost_secp256k1::Secp256K1Sha256, S>(s, &GX_SECP)
 }
 pub fn k4_secp256k1_tr_tag<S: Src>(s: &mut S) {
-    tag::<frost_secp256k1_tr::Secp256K1Sha256TR, S>(s, &GX_SECP, false)
-}
-pub fn k4_p256_tag05<S: Src>(s: &mut S) {
-    tag::<frost_p256::P256Sha256, S>(s, &GX_P256, true)
-}
-pub fn k4_secp256k1_tag05<S: Src>(s: &mut S) {
-    tag::<frost_secp256k1::Secp256K1Sha256, S>(s, &GX_SECP, true)
-}
-pub fn k4_secp256k1_tr_tag05<S: Src>(s: &mut S) {
-    tag::<frost_secp256k1_tr::Secp256K1Sha256TR, S>(s, &GX_SECP, true)
+    tag::<frost_secp256k1_tr::Secp256K1Sha256TR, S>(s, &GX_SECP)
 }
 /// Taproot signature framing: every length 0..=80 other than 64 is rejected, no panic
 pub fn k4_tr_signature_length<S: Src>(s: &mut S) {
